@@ -34,6 +34,38 @@ CHECKS = {
             'TLC proves the path laws on every TreeGen tree; the real accessors are applied to the real tree (identity logged), split at every '
             'position, compared across three routes, codified and evaluated; TLC judges entry class / node type / kind / field name of every step.',
             'As C01. Custom nodes of the universe expose children through __getitem__ with their declared entries.', '5 C04'),
+    'C05': ('model_checking',
+            'recorded call logs of the six tree_map variants / traverse / walk on PairGen pairs, validated by TLC against the MapCalls semantics (FlattenUpTo alignment)',
+            'TLC checks the prefix laws that make rest alignment well defined on every PairGen pair; the real code maps a recording function '
+            'with 0..3 rests; TLC judges count, order, first-argument identity, rest subtrees (=FlattenUpTo of layer D), path/accessor '
+            'argument, result tree, in-place variants returning the original object, identity and functor laws, and that a non-suffix rest '
+            'raises ValueError with an empty call log.',
+            'As C01. The relative order of f calls and unflatten_func calls is not constrained (pybind11 iterator look-ahead).', '5 C05'),
+    'C06': ('model_checking',
+            'SpecEq / hash-key laws on PairGen pairs (TLC) + real ==, !=, hash, set/dict membership on pairs, seven construction routes and cross-option flattenings judged by TLC',
+            'TLC checks reflexivity, symmetry and SpecEq => equal documented hash key on every PairGen pair (identical, substituted, '
+            'one-attribute edits, re-ordered dicts); the real ==/!=/hash of every dumped and random pair, of seven construction routes of '
+            'the same structure and of the same tree under two option sets are judged against SpecEq; a == b must imply equal hashes.',
+            'As C01. Hash VALUES are not modelled, only the implication and stability.', '5 C06'),
+    'C07': ('model_checking',
+            'three prefix definitions in TLA+ (SpecPrefix, FlattenUpTo, via paths) proved equivalent by TLC on PairGen; real is_prefix/<=/flatten_up_to/prefix_errors/tree_map judged by TLC',
+            'TLC checks on every PairGen pair that the spec-vs-spec and spec-vs-tree definitions agree, that the returned subtrees partition '
+            'the leaves, strictness and antisymmetry; the ten real comparison spellings, flatten_up_to (returned subtrees by identity), '
+            'prefix_errors (never an exception) and tree_map-with-rest are judged on every dumped pair and on random pairs with re-orderings '
+            'at several depths.',
+            'As C01.', '5 C07'),
+    'C08': ('model_checking',
+            'encoding invariant + children/child/one_level/compose laws by TLC on TreeGen/PairGen; every inspection method, rebuild route, repr, compose and transform of real treespecs judged by TLC',
+            'TLC checks WellFormed and the inspection / compose laws on every generated tree / pair; the real counts, kind, type, is_leaf, '
+            'is_one_level, children, child(i)/entry(i) over [-n-1,n], entries, one_level, paths, accessors and repr (exact string) are judged '
+            'against layer D; the root is rebuilt via transform / treespec_from_collection / named constructor; compose and transform on pairs.',
+            'As C01. repr of function objects is compared with addresses erased.', '5 C08'),
+    'C09': ('model_checking',
+            'Lub (least upper bound in the prefix order) defined independently in TLA+; laws by TLC on pairs and triples; six real broadcast entry points judged by TLC',
+            'TLC checks that Lub is commutative up to dict kind/order, idempotent, absorbs prefixes, and that the two-pass n-ary fold is the '
+            'common suffix of triples; broadcast_to_common_suffix (incl. paths/accessors/entries of the result), tree_broadcast_prefix, '
+            'broadcast_prefix, tree_broadcast_common, broadcast_common and tree_broadcast_map (recorded calls) are judged against Lub/Owner.',
+            'As C01.', '5 C09'),
 }
 
 NOT_YET = {}
